@@ -633,7 +633,7 @@ func (o *ovsdbClient) echo(args []interface{}, reply *[]interface{}) error {
 func (o *ovsdbClient) update(params []json.RawMessage, reply *[]interface{}) error {
 	cookie := MonitorCookie{}
 	*reply = []interface{}{}
-	if len(params) > 2 {
+	if len(params) != 2 {
 		return fmt.Errorf("update requires exactly 2 args")
 	}
 	err := json.Unmarshal(params[0], &cookie)
@@ -679,7 +679,7 @@ func (o *ovsdbClient) update(params []json.RawMessage, reply *[]interface{}) err
 func (o *ovsdbClient) update2(params []json.RawMessage, reply *[]interface{}) error {
 	cookie := MonitorCookie{}
 	*reply = []interface{}{}
-	if len(params) > 2 {
+	if len(params) != 2 {
 		return fmt.Errorf("update2 requires exactly 2 args")
 	}
 	err := json.Unmarshal(params[0], &cookie)
@@ -721,7 +721,7 @@ func (o *ovsdbClient) update2(params []json.RawMessage, reply *[]interface{}) er
 func (o *ovsdbClient) update3(params []json.RawMessage, reply *[]interface{}) error {
 	cookie := MonitorCookie{}
 	*reply = []interface{}{}
-	if len(params) > 3 {
+	if len(params) != 3 {
 		return fmt.Errorf("update requires exactly 3 args")
 	}
 	err := json.Unmarshal(params[0], &cookie)
@@ -760,8 +760,10 @@ func (o *ovsdbClient) update3(params []json.RawMessage, reply *[]interface{}) er
 
 	if err == nil {
 		db.monitorsMutex.Lock()
-		mon := db.monitors[cookie.ID]
-		mon.LastTransactionID = lastTransactionID
+		// the notification may name a monitor this client does not have
+		if mon := db.monitors[cookie.ID]; mon != nil {
+			mon.LastTransactionID = lastTransactionID
+		}
 		db.monitorsMutex.Unlock()
 	}
 
